@@ -520,9 +520,9 @@ def next_psuedo_matches(state: TokenizerState) -> TokenInfo | None:
     return None
 
 
-def next_end_tokens(state: TokenizerState) -> Iterator[TokenInfo]:
-    # Add an implicit NEWLINE if the input doesn't end in one
-    if state.last_line and state.last_line[-1] != "\n" and not state.last_line.strip().startswith("#"):
+def next_end_tokens(state: TokenizerState, open_line: bool) -> Iterator[TokenInfo]:
+    # Add an implicit NEWLINE if the last logical line has not been closed by one
+    if open_line:
         yield TokenInfo(
             Token.NEWLINE,
             "",
@@ -672,7 +672,17 @@ def handle_end_progs(state: TokenizerState) -> Iterator[TokenInfo]:
 
 def _tokenize(readline: Callable[[], str]) -> Iterator[TokenInfo]:
     state = TokenizerState()
+    open_line = False  # a significant token has been produced since the last NEWLINE
+    for tok in _tokenize_lines(readline, state):
+        if tok.type == Token.NEWLINE:
+            open_line = False
+        elif tok.type not in (Token.WS, Token.COMMENT, Token.NL, Token.INDENT, Token.DEDENT):
+            open_line = True
+        yield tok
+    yield from next_end_tokens(state, open_line)
 
+
+def _tokenize_lines(readline: Callable[[], str], state: TokenizerState) -> Iterator[TokenInfo]:
     while True:  # loop over lines in stream
         state.move_next_line(readline)
 
@@ -707,8 +717,6 @@ def _tokenize(readline: Callable[[], str]) -> Iterator[TokenInfo]:
                     state.line,
                 )
                 state.pos += 1
-
-    yield from next_end_tokens(state)
 
 
 def generate_tokens(readline: Callable[[], str] | str) -> Iterator[TokenInfo]:
